@@ -103,6 +103,23 @@ def run(R):
         if not trees.is_obj(a):
             a = g.B(a)
         b = mutate(rnd, a, g)
+        if i % 5 == 0:
+            # stratum: ONE object (list, tuple) occurs several times in the left operand; the right operand equals it at
+            # some occurrences and differs at one (any position): == compares every pair of fields
+            s0 = trees.gen(rnd, rnd.choice([1, 2]), [], share=0.0, kinds=('obj', 'list', 'tuple', 'leaf'))
+            if not (trees.is_obj(s0) or isinstance(s0, (list, tuple))):
+                s0 = [s0, s0]
+            wrap = rnd.choice([lambda x, y, z: g.A(x, y), lambda x, y, z: g.T3(x, y, z), lambda x, y, z: g.Infix(x, y, z),
+                               lambda x, y, z: g.B([x, y, z]), lambda x, y, z: g.B((x, [y, z])), lambda x, y, z: g.A(g.B(x), g.B(y))])
+            a = wrap(s0, s0, s0)
+            parts = [clone(s0), clone(s0), clone(s0)]
+            k0 = rnd.randrange(4)
+            if k0 < 3:
+                m0 = mutate(rnd, s0, g)
+                parts[k0] = m0
+            b = wrap(*parts)
+            if rnd.random() < 0.5:
+                a, b = b, a
         c = mutate(rnd, b, g)
         R.count('eq', repr((a, b))[:300], nontrivial=True)
         case = {'a': repr(a)[:300], 'b': repr(b)[:300]}
